@@ -53,7 +53,8 @@ def deconvolve(x: np.ndarray, psf: np.ndarray, mode: str = "valid"):
 
     r = shift_bit_length(max(x.size, psf.size))
     y = np.fft.irfft(np.fft.rfft(x, r) / np.fft.rfft(psf, r), r)
-    rec = np.trim_zeros(np.real(y))[: x.size - psf.size - 1]
+    # no trim_zeros: an exactly zero sample (e.g. a leading 0) is part of the signal
+    rec = np.real(y)[: x.size - psf.size - 1]
     if mode == "valid":
         return rec
     elif mode == "same":
